@@ -37,7 +37,7 @@ PROPS = {
         assumptions=[
             "the harness realises the eager schedule (a blocked waiter whose select has a ready case runs to its next gate at once); the theorems cover every placement of wake-ups (Wake / CancelWake / ErrWake are separate events)",
             "'two select cases ready' (Go chooses at random) is covered by the theorems but never produced by the harness: a waiter never has a cancelled context and a pending error-channel item together, and is parked between sample and select only when neither is pending",
-            "'the context's error' is read as ctx.Err() of the ended context (Canceled for a plain or with-cause context, DeadlineExceeded for a deadline context); a closed error channel yields the literal context.Canceled (the code's documented treatment); clauses 6 / 9 / 10 require every returned error identity to be that of a source that fired; returning context.Cause(ctx) for a with-cause context is accepted by the monitors (its source fired) but differs from the model (correspondence)",
+            "'the context's error' is read as ctx.Err() of the ended context (Canceled for a plain or with-cause context, DeadlineExceeded for a deadline context); a closed error channel yields the literal context.Canceled (the code's documented treatment); clauses 6 / 9 / 10 require every returned error identity to be that of a source that fired: Canceled needs a context that ended with Err()=Canceled or a closed error channel, DeadlineExceeded a deadline context that ended, and the cancellation cause (context.Cause) is never the context's error; an error of unknown identity (status 8) is left to the correspondence",
             "liveness ('never remain blocked while the content satisfies the condition') is stated as quiescence safety on top of the no-lost-wake-up invariant",
             "WatchChanges is modelled as rounds of the WaitValueChange(current) waiter followed by the callback; there is no schedule point between the callback's return and the next round's HoldLock entry gate, so a round's 'held' values start at the content present when the callback returns; that WatchChanges returns the callback's error unchanged is compared through the correspondence (status 11) and is not a monitor clause (not C15 text)",
             "c15_swap_no_lost_update assumes the equality function never identifies v and v+1 (otherwise SwapValue by design does not store); all other theorems assume nothing about the equality function",
